@@ -1,12 +1,18 @@
-(* C14 -- text positions: text_pos_at is total on valid UTF-8, clamps, counts rows by LF and
-   columns in characters, stays in bounds and moves with inserted line breaks / spaces.
-   Statements pinned here; proofs in Proofs/PositionProofs.v. *)
-From Coq Require Import List NArith.
+(* C14 -- text positions and error reports: text_pos_at is total on valid UTF-8, clamps, counts
+   rows by LF and columns in characters, stays in bounds and moves with inserted line breaks / spaces;
+   every Err returned by parse carries the position of an offset inside the input (or is one of the
+   seven position-less variants, which report 1:1), hence row / column are within the input.
+   Statements are pinned here (copied verbatim from the proof files by tools/pin_props.py);
+   each is re-proved by `exact` and followed by Print Assumptions. *)
+From Coq Require Import Ascii String.
+From Coq Require Import List NArith Bool PeanoNat Sorted.
 Import ListNotations.
-From RX.Model Require Import Base Stream.
-From RX.Proofs Require Import PositionProofs.
+From RX Require Import Generated.
+From RX.Model Require Import Base CharClass Stream Tokenizer Doc Builder Parse Api.
+From RX.Proofs Require Import PositionProofs ErrPosStream ErrPosTokenizer ErrPosParse.
 Open Scope N_scope.
 
+(* ---- Proofs/PositionProofs.v ---- *)
 Theorem C14_text_pos_total_valid :
   forall text p, valid_utf8_b text = true ->
   exists rc, text_pos_at text p = Ok rc.
@@ -62,3 +68,32 @@ Theorem C14_text_pos_shift_spaces_gen :
   text_pos_at (repeat 32 k ++ text) (N.of_nat k + q) = Ok (r, if r =? 1 then N.of_nat k + c else c).
 Proof. exact text_pos_shift_spaces_gen. Qed.
 Print Assumptions C14_text_pos_shift_spaces_gen.
+
+(* ---- Proofs/ErrPosTokenizer.v ---- *)
+Module G1.
+Local Notation token := Tokenizer.token.
+Theorem C14_tokenizer_errors_positioned :
+  forall text (C : Type) (ev : token -> C -> res C) dtd c e,
+  (forall tok c0 e0, ev tok c0 = Err e0 -> positioned text e0) ->
+  parse_document text C ev dtd c = Err e -> positioned text e.
+Proof. exact tokenizer_errors_positioned. Qed.
+Print Assumptions C14_tokenizer_errors_positioned.
+
+End G1.
+
+(* ---- Proofs/ErrPosParse.v ---- *)
+Theorem C14_token_errors_positioned :
+  forall text tok c e, token text tok c = Err e -> positioned text e.
+Proof. exact token_errors_positioned. Qed.
+Print Assumptions C14_token_errors_positioned.
+
+Theorem C14_parse_errors_positioned :
+  forall text opt e, parse text opt = Err e -> positioned text e.
+Proof. exact parse_errors_positioned. Qed.
+Print Assumptions C14_parse_errors_positioned.
+
+Theorem C14_parse_error_in_bounds :
+  forall text opt e, parse text opt = Err e ->
+  1 <= fst (error_pos e) /\ fst (error_pos e) <= 1 + count_byte 10 text /\ 1 <= snd (error_pos e) /\ snd (error_pos e) <= 1 + char_count text.
+Proof. exact parse_error_in_bounds. Qed.
+Print Assumptions C14_parse_error_in_bounds.
